@@ -222,7 +222,7 @@ PROPS["C01"] = dict(
 PROPS["C02"] = dict(
     level="exploration", contracts=["contracts.inspect311", "contracts.inspect310", "contracts.c13", "contracts.lowlevel", "contracts.c02_exiting"],
     unit_filter=lambda u: u.name in ("C07.inspect_frame_311", "C02.inspect_frame_310.stack", "C13.push", "C20.contexts_active_in_frame",
-                                     "C02.innermost_with_handler", "C02.predecessors", "C02.backtrack_over_load_none"),
+                                     "C02.innermost_with_handler", "C02.predecessors", "C02.backtrack_over_load_none", "C02.frame_object_310.f_stacktop"),
     legs=[dict(name="c20_reentrant", cmd="PYTHONPATH={repo} " + PY312 + " legs/c20_reentrant.py"),
           dict(name="c02_exit_names", cmd="PYTHONPATH={repo} " + PY312 + " legs/c02_exit_names.py"),
           dict(name="c02_exit_names_py311", cmd="PYTHONPATH={repo} " + PY311 + " legs/c02_exit_names.py")] + old_pythons("c02_exit_names", "c02_exit_names.py") + [
